@@ -210,7 +210,7 @@ var semCases = []semCase{
 	{"VALID-self-ref", "package foo.v1\n\nobject Foo {\n  field next object:Foo\n}\n"},
 	{"VALID-readme-array-implicit-object", "package foo.v1\n\nobject Foo {\n  field bars array {\n    field barId key:id62\n  }\n}\n"},
 	{"VALID-array-singleForm", "package foo.v1\n\nobject Foo {\n  field bars array:string {\n    ext.singleForm = \"bar\"\n  }\n}\n"},
-	{"VALID-any-types", "package foo.v1\n\nobject Foo {\n  field a any {\n    type = \"foo.v1.Bar\"\n  }\n}\n"},
+	{"VALID-any-types", "package foo.v1\n\nobject Foo {\n  field a any {\n    types = [\"foo.v1.Bar\"]\n  }\n}\n"},
 	{"VALID-required-map", "package foo.v1\n\nobject Foo {\n  field m ! map:string\n}\n"},
 	{"optional-array", "package foo.v1\n\nobject Foo {\n  field m ? array:string\n}\n"},
 	{"flatten-scalar", "package foo.v1\n\nobject Foo {\n  field a string {\n    flatten = true\n  }\n}\n"},
@@ -365,10 +365,36 @@ func collectPositions(err error, files map[string][]byte, defaultFile string, pc
 		if e.Pos == nil {
 			return
 		}
-		fn := defaultFile
-		if e.Pos.Filename != nil && *e.Pos.Filename != "" {
-			fn = *e.Pos.Filename
+		inFile := func(src []byte) bool {
+			lines := strings.Split(string(src), "\n")
+			in := func(p errpos.Point) bool {
+				if p.Line < 0 || p.Column < 0 || p.Line > len(lines) {
+					return false
+				}
+				if p.Line == len(lines) {
+					return p.Column == 0 // EOF on a virtual last line
+				}
+				return p.Column <= utf8.RuneCountInString(lines[p.Line])+1
+			}
+			return in(e.Pos.Start) && in(e.Pos.End)
 		}
+		if e.Pos.Filename == nil || *e.Pos.Filename == "" {
+			// conversion errors carry no file name (the message names it): the position must lie inside
+			// one of the bundle's source files
+			for _, src := range files {
+				if inFile(src) {
+					pc.positioned++
+					return
+				}
+			}
+			pc.positioned++
+			pc.outside++
+			if pc.first == "" {
+				pc.first = fmt.Sprintf("(no file name) %v-%v lies in no source file of the bundle", e.Pos.Start, e.Pos.End)
+			}
+			return
+		}
+		fn := *e.Pos.Filename
 		src, ok := files[fn]
 		if !ok {
 			// a position in a file that is not a source of the bundle (a generated .j5s.proto)
@@ -379,20 +405,10 @@ func collectPositions(err error, files map[string][]byte, defaultFile string, pc
 			return
 		}
 		pc.positioned++
-		lines := strings.Split(string(src), "\n")
-		in := func(p errpos.Point) bool {
-			if p.Line < 0 || p.Column < 0 || p.Line > len(lines) {
-				return false
-			}
-			if p.Line == len(lines) {
-				return p.Column == 0 // EOF on a virtual last line
-			}
-			return p.Column <= utf8.RuneCountInString(lines[p.Line])+1
-		}
-		if !in(e.Pos.Start) || !in(e.Pos.End) {
+		if !inFile(src) {
 			pc.outside++
 			if pc.first == "" {
-				pc.first = fmt.Sprintf("%s: %v-%v (file has %d lines)", fn, e.Pos.Start, e.Pos.End, len(lines))
+				pc.first = fmt.Sprintf("%s: %v-%v (file has %d lines)", fn, e.Pos.Start, e.Pos.End, len(strings.Split(string(src), "\n")))
 			}
 		}
 	}
@@ -653,7 +669,8 @@ func execTotalSrc(h *vh.H, op string, args []*j5sgen.Node) string {
 	case "err:outside":
 		h.Fail("c07-position-outside:"+kindClass(kind)+":"+classify(compileErr.Error()), op, detail+src)
 	case "err:nopos", "err:virtual":
-		h.Fail("c07-"+strings.TrimPrefix(cls, "err:")+":"+kindClass(kind)+":"+classify(compileErr.Error()), op, detail+src)
+		// identified by the error class alone: the same unpositioned error is reached from many inputs
+		h.Fail("c07-"+strings.TrimPrefix(cls, "err:")+":"+classify(compileErr.Error()), op, "["+kind+"] "+detail+src)
 	}
 	// lint entry points on the same input
 	lc, ld := lintFile(mb, path)
